@@ -202,7 +202,7 @@ def find_best_match(abbr: str, items: list, min_score=0, partial_match=False):
     for item in items:
         score = calculate_score(abbr, get_scoring_part(item), partial_match)
 
-        if score == 1:
+        if score == 1 and get_scoring_part(item) == abbr:
             # direct hit, no need to look further
             return item
 
